@@ -131,6 +131,76 @@ theorem continueOrRet_reachable {d d' : DState} {s1 : State} {r : Nat} {res ev :
       obtain ⟨hd, _⟩ := hs; subst hd
       exact advance_reachable (d := { d with s := s1 }) h1 ha
 
+theorem endIteration_reachable {d : DState} {s s' : State} {r : Nat} (h : Reachable s)
+    (hs : endIteration d s r = some s') : Reachable s' := by
+  simp only [endIteration] at hs
+  split at hs
+  · exact unload_reachable h hs
+  · simp at hs; subst hs; exact h
+
+theorem advanceDyn_reachable {fuel : Nat} {d : DState} {r : Nat} {x : DState × String} (h : Reachable d.s)
+    (hs : advanceDyn fuel d r = some x) : Reachable x.1.s := by
+  induction fuel generalizing d with
+  | zero => simp [advanceDyn] at hs
+  | succ fuel ih =>
+    simp only [advanceDyn] at hs
+    split at hs
+    · simp at hs
+    next q hq =>
+      split at hs
+      · simp at hs
+      next s0 h0 =>
+        have hr0 := Reachable.step _ h h0
+        split at hs
+        · simp at hs
+        next s1 h1 =>
+          have hr1 := stores_reachable hr0 h1
+          split at hs
+          · simp at hs
+          next hcs hhs =>
+            split at hs
+            next hsel =>
+              split at hs
+              · simp at hs
+              next s2 h2 =>
+                have hr2 := Reachable.step _ hr1 h2
+                split at hs
+                · simp at hs
+                next s3 h3 =>
+                  have hr3 := unload_reachable hr2 h3
+                  split at hs
+                  · simp at hs; subst hs; exact hr3
+                  · exact ih (d := withIter d s3 r d.s.cfgs.length (keysOf d q.cfg)) hr3 hs
+            next u hsel =>
+              split at hs
+              · simp at hs
+              next s2 h2 =>
+                have hr2 := Reachable.step _ hr1 h2
+                split at hs
+                · split at hs
+                  · simp at hs
+                  next s3 h3 =>
+                    have hr3 := endAttempt_reachable hr2 h3
+                    split at hs
+                    · simp at hs
+                    next s4 h4 =>
+                      have hr4 := unload_reachable hr3 h4
+                      split at hs
+                      · simp at hs; subst hs; exact hr4
+                      · exact ih (d := withIter d s4 r d.s.cfgs.length (keysOf d q.cfg)) hr4 hs
+                · simp at hs; subst hs; exact hr2
+
+theorem continueOrRetDyn_reachable {d d' : DState} {s1 : State} {r : Nat} {res ev : String} (h1 : Reachable s1)
+    (hs : continueOrRetDyn d s1 r res = some (d', ev)) : Reachable d'.s := by
+  simp only [continueOrRetDyn] at hs
+  split at hs
+  · simp at hs
+  next s2 h2 =>
+    have hr2 := endIteration_reachable h1 h2
+    split at hs
+    · simp at hs; obtain ⟨hd, _⟩ := hs; subst hd; exact hr2
+    · exact advanceDyn_reachable (d := { d with s := s2 }) hr2 hs
+
 theorem sstep_reachable {d d' : DState} {st : SStep} {ev : String} (h : Reachable d.s)
     (hs : sstep d st = some (d', ev)) : Reachable d'.s := by
   cases st with
@@ -178,12 +248,14 @@ theorem sstep_reachable {d d' : DState} {st : SStep} {ev : String} (h : Reachabl
       · simp at hs
       next s1 h1 =>
         have hr1 := Reachable.step _ h h1
-        cases ha : advance fuel0 { d with s := s1 } d.s.reqs.length with
-        | none => simp [ha] at hs
-        | some x =>
-          simp [ha] at hs
-          obtain ⟨hd, _⟩ := hs; subst hd
-          exact advance_reachable (d := { d with s := s1 }) hr1 ha
+        split at hs
+        · exact advanceDyn_reachable (d := { d with s := s1 }) hr1 hs
+        · cases ha : advance fuel0 { d with s := s1 } d.s.reqs.length with
+          | none => simp [ha] at hs
+          | some x =>
+            simp [ha] at hs
+            obtain ⟨hd, _⟩ := hs; subst hd
+            exact advance_reachable (d := { d with s := s1 }) hr1 ha
   | answer r what =>
     simp only [sstep] at hs
     split at hs
@@ -193,7 +265,7 @@ theorem sstep_reachable {d d' : DState} {st : SStep} {ev : String} (h : Reachabl
         split at hs
         · split at hs
           · simp at hs
-          next s1 h1 => exact continueOrRet_reachable (endAttempt_reachable h h1) hs
+          next s1 h1 => exact continueOrRetDyn_reachable (endAttempt_reachable h h1) hs
         · split at hs
           · simp at hs
           next code hcode =>
@@ -202,24 +274,54 @@ theorem sstep_reachable {d d' : DState} {st : SStep} {ev : String} (h : Reachabl
             next s1 h1 =>
               have hr1 := strikesN_reachable h h1
               split at hs
-              · cases he : endAttempt s1 r .panic with
-                | none => simp [he] at hs
-                | some s2 => simp [he] at hs; obtain ⟨hd, _⟩ := hs; subst hd; exact endAttempt_reachable hr1 he
               · split at hs
-                · cases he : endAttempt s1 r .handlerErr with
+                · simp at hs
+                next s2 h2 => exact continueOrRetDyn_reachable (endAttempt_reachable hr1 h2) hs
+              · split at hs
+                · split at hs
+                  · simp at hs
+                  next s2 h2 => exact continueOrRetDyn_reachable (endAttempt_reachable hr1 h2) hs
+                · split at hs
+                  · simp at hs
+                  next s2 h2 => exact continueOrRetDyn_reachable (endAttempt_reachable hr1 h2) hs
+    · split at hs
+      · split at hs
+        · simp at hs
+        next q hq =>
+          split at hs
+          · split at hs
+            · simp at hs
+            next s1 h1 => exact continueOrRet_reachable (endAttempt_reachable h h1) hs
+          · split at hs
+            · simp at hs
+            next code hcode =>
+              split at hs
+              · simp at hs
+              next s1 h1 =>
+                have hr1 := strikesN_reachable h h1
+                split at hs
+                · cases he : endAttempt s1 r .panic with
                   | none => simp [he] at hs
                   | some s2 => simp [he] at hs; obtain ⟨hd, _⟩ := hs; subst hd; exact endAttempt_reachable hr1 he
-                · cases he : endAttempt s1 r .ok with
-                  | none => simp [he] at hs
-                  | some s2 => simp [he] at hs; obtain ⟨hd, _⟩ := hs; subst hd; exact endAttempt_reachable hr1 he
-    · simp at hs
+                · split at hs
+                  · cases he : endAttempt s1 r .handlerErr with
+                    | none => simp [he] at hs
+                    | some s2 => simp [he] at hs; obtain ⟨hd, _⟩ := hs; subst hd; exact endAttempt_reachable hr1 he
+                  · cases he : endAttempt s1 r .ok with
+                    | none => simp [he] at hs
+                    | some s2 => simp [he] at hs; obtain ⟨hd, _⟩ := hs; subst hd; exact endAttempt_reachable hr1 he
+      · simp at hs
   | abort r =>
     simp only [sstep] at hs
     split at hs
-    · cases he : endAttempt d.s r .clientAbort with
-      | none => simp [he] at hs
-      | some s1 => simp [he] at hs; obtain ⟨hd, _⟩ := hs; subst hd; exact endAttempt_reachable h he
-    · simp at hs
+    · split at hs
+      · simp at hs
+      next s1 h1 => exact continueOrRetDyn_reachable (endAttempt_reachable h h1) hs
+    · split at hs
+      · cases he : endAttempt d.s r .clientAbort with
+        | none => simp [he] at hs
+        | some s1 => simp [he] at hs; obtain ⟨hd, _⟩ := hs; subst hd; exact endAttempt_reachable h he
+      · simp at hs
   | bdown k =>
     simp only [sstep] at hs
     split at hs
@@ -234,20 +336,24 @@ theorem sstep_reachable {d d' : DState} {st : SStep} {ev : String} (h : Reachabl
     simp only [sstep] at hs
     simp at hs; obtain ⟨hd, _⟩ := hs; subst hd; exact tickN_reachable n h
 
-theorem abortAllFrom_reachable {s : State} (r n : Nat) (h : Reachable s) : Reachable (abortAllFrom s r n) := by
+theorem abortAllFrom_reachable {s : State} (d : DState) (r n : Nat) (h : Reachable s) : Reachable (abortAllFrom d s r n) := by
   induction n generalizing s r with
   | zero => exact h
   | succ n ih =>
     simp only [abortAllFrom]
     split
     · split
-      next s1 h1 => exact ih _ (settle_reachable (endAttempt_reachable h h1))
+      next s1 h1 =>
+        have hr1 := endAttempt_reachable h h1
+        split
+        next s2 h2 => exact ih _ (settle_reachable (endIteration_reachable hr1 h2))
+        next => exact ih _ (settle_reachable hr1)
       next => exact ih _ h
     · exact ih _ h
 
 theorem quiesce_reachable {d : DState} (h : Reachable d.s) : Reachable (quiesce d) := by
   simp only [quiesce]
-  have ha := abortAllFrom_reachable 0 d.s.reqs.length h
+  have ha := abortAllFrom_reachable d 0 d.s.reqs.length h
   split
   · split
     next s1 h1 => exact settle_reachable (unload_reachable ha h1)
